@@ -3,6 +3,7 @@ use super::c01::{check_against_truth, gen_chain};
 use crate::model::{random_response, Exchange, Handshake};
 use crate::core::{guarded, panic_sig, Property, Rec, Tier, Workload};
 use crate::drive::*;
+use crate::json::esc_short;
 use crate::rng::Rng;
 use ureq_proto::client::flow::{Await100Result, RecvBodyResult, RecvResponseResult, RedirectAuthHeaders, SendRequestResult};
 
@@ -160,14 +161,11 @@ fn second_exchange_on(mut nf: F<ureq_proto::client::flow::state::Prepare>, polic
         .cfg
         .orig
         .iter()
-        .filter(|(n, _)| !(n.eq_ignore_ascii_case("cookie") || n.eq_ignore_ascii_case("content-length") || (n.eq_ignore_ascii_case("authorization") && !keep_auth)))
+        .filter(|(n, _)| !(n.eq_ignore_ascii_case("cookie") || n.eq_ignore_ascii_case("content-length") || n.eq_ignore_ascii_case("transfer-encoding") || (n.eq_ignore_ascii_case("authorization") && !keep_auth)))
         .cloned()
         .collect();
-    let inherited_te = cfg2.has("transfer-encoding");
     let mut body2 = vec![];
-    if !needs_body(method2) && (inherited_te || rng.chance(1, 3)) {
-        // an inherited Transfer-Encoding on a body-less method is refused by the request analysis (not
-        // pinned by any property), so those flows always take the escape hatch
+    if !needs_body(method2) && rng.chance(1, 3) {
         cfg2.despite = true;
         body2 = crate::wire::payload(rng.usize_in(0, 40), 7);
     }
@@ -211,6 +209,47 @@ fn second_exchange_on(mut nf: F<ureq_proto::client::flow::state::Prepare>, polic
     }
     rec.cov("edge/Redirect->Prepare");
     true
+}
+
+/// `as_new_flow` takes `&mut self`: nothing in the types stops a caller from asking a Redirect flow for a
+/// new flow a second time after the first call produced one. It must not panic.
+fn second_follow_case(idx: u64, rec: &mut Rec) {
+    let method = ["GET", "HEAD", "POST", "OPTIONS"][(idx % 4) as usize];
+    let status = [301u16, 302, 303, 307, 308][(idx / 4 % 5) as usize];
+    let loc: &[u8] = [&b"/next"[..], b"http://b.test/abs", b"../up?q=1", b"//c.test/p"][(idx / 20 % 4) as usize];
+    let policy = if idx / 80 % 2 == 0 { RedirectAuthHeaders::Never } else { RedirectAuthHeaders::SameHost };
+    let cfg = ReqCfg::new(method, "http://a.test/dir/file").h("authorization", b"x");
+    let head = format!("HTTP/1.1 {} R\r\nLocation: {}\r\nContent-Length: 0\r\n\r\n", status, String::from_utf8_lossy(loc));
+    let mut r = match fast_to_recv(&cfg).and_then(|f| fast_response(f, head.as_bytes())) {
+        Ok((End::Redirect(r), ..)) => r,
+        Ok(_) => return rec.fail("C09/setup", "no redirect state".into()),
+        Err(e) => return rec.fail("C09/setup", e),
+    };
+    rec.call();
+    let first = match r.as_new_flow(policy) {
+        Ok(Some(f)) => f,
+        _ => {
+            rec.cov("second-follow/first-not-followed");
+            return;
+        }
+    };
+    let first_uri = first.uri().to_string();
+    rec.call();
+    let res = guarded(move || {
+        let again = r.as_new_flow(policy).map(|o| o.map(|f| f.uri().to_string()));
+        let _ = r.status();
+        let _ = r.proceed();
+        again
+    });
+    rec.ev(|| format!("{} {} Location {:?}: first as_new_flow -> {}, second -> {:?}", method, status, esc_short(loc, 40), first_uri, res));
+    match res {
+        Err((l, m)) => {
+            // keyed on the file, not the line: the finding is this call sequence
+            let file = l.split(':').next().unwrap_or("?").to_string();
+            rec.fail(&format!("C09/second-as_new_flow-after-success/panic@{}", file), format!("{} {} Location {:?}: the second as_new_flow() on the same Redirect flow panicked: {} at {}", method, status, esc_short(loc, 40), m, l))
+        }
+        Ok(_) => rec.cov("second-follow/returned"),
+    }
 }
 
 fn history_case(rng: &mut Rng, rec: &mut Rec) {
@@ -294,9 +333,13 @@ fn history_case(rng: &mut Rng, rec: &mut Rec) {
                         Ok(None) => {
                             // a declined redirect leaves the flow where it was: asking again and then
                             // moving on to Cleanup are permitted calls
-                            let _ = r.as_new_flow(policy);
+                            let again = r.as_new_flow(policy);
                             let _ = r.status();
                             let _ = r.proceed();
+                            if !matches!(again, Ok(None)) {
+                                // nothing happened in between: the flow is where it was, the answer is the same
+                                return Err(format!("as_new_flow declined (Ok(None)), asked again it said {:?}", again.map(|o| o.map(|f| f.uri().to_string()))));
+                            }
                             Ok((None, true, None))
                         }
                         Err(e) => {
@@ -309,14 +352,12 @@ fn history_case(rng: &mut Rng, rec: &mut Rec) {
                 match res {
                     Err((loc, msg)) => return rec.fail(&format!("C09/{}-in-Redirect", panic_sig(&loc, &msg)), format!("following the redirect panicked: {} at {}", msg, loc)),
                     Ok(Err(e)) => {
-                        // An original request with an explicit Transfer-Encoding keeps that header on the
-                        // redirected GET, which the request analysis then refuses. No given property pins
-                        // that (C13 names Cookie / Content-Length / Authorization only), so it is not judged.
-                        let inherited_te = ex.cfg.orig.iter().any(|(n, _)| n.eq_ignore_ascii_case("transfer-encoding"));
-                        if has_location && !inherited_te {
+                        // the flow a redirect produces must be usable whatever the original request carried
+                        // (its framing headers are not the new request's)
+                        if has_location {
                             return rec.fail("C09/redirect-with-location-failed", format!("as_new_flow/new flow: {}", e));
                         }
-                        rec.cov(if has_location { "edge/Redirect->(refused: inherited transfer-encoding)" } else { "edge/Redirect->(error: no Location)" });
+                        rec.cov("edge/Redirect->(error: no Location)");
                     }
                     Ok(Ok((Some(_), _, Some(nf)))) => new_flow_out = Some((nf, policy)),
                     Ok(Ok((Some(n), ready, None))) => {
@@ -511,6 +552,7 @@ impl Property for P {
     fn workloads(&self, tier: Tier) -> Vec<Workload> {
         vec![
             Workload::new("histories", tier.pick(6_000, 1_500_000), false, "random exchange histories + advance probes at every step"),
+            Workload::new("second-follow", 160, true, "a second as_new_flow() on a Redirect flow whose first one produced a flow: 4 methods x 5 statuses x 4 Locations x 2 policies"),
             Workload::new("expect-spellings", 800, false, "Expect values in other spellings (100-Continue, ...), answered at once or after the body: either path, but usable to completion"),
             Workload::new("request-menu", 5 * 9 * 5 * 10 * 6 * 2 * 3, true, "every request shape of the C17 product (valid and invalid) x 0/1/2 head writes, then an advance attempt"),
         ]
@@ -521,6 +563,9 @@ impl Property for P {
         }
         if wl == "expect-spellings" {
             return expect_spelling_case(idx, seed, rec);
+        }
+        if wl == "second-follow" {
+            return second_follow_case(idx, rec);
         }
         let mut rng = Rng::derive(seed, wl, idx);
         history_case(&mut rng, rec)
